@@ -2,6 +2,7 @@
 import hashlib
 import json
 import os
+import re
 
 LEVEL = "proof"
 MANIFEST = {
@@ -82,7 +83,7 @@ def run(ctx):
         open(gpath, "w").write(rp.get("grammar", ""))
         args += ["--replay", gpath]
     else:
-        args += ["--n", ctx.vol(12000, 200000)]
+        args += ["--n", ctx.vol(8000, 120000)]
     rc, out, err = ctx.run_harness(exe, args, timeout=7200)
     if rc != 0:
         ctx.fatal("harness lrverdict failed: " + err[-500:])
@@ -194,7 +195,10 @@ def run(ctx):
             replay["reference_automaton"] = d[:20000]
             replay["reference_automaton_validates"] = sc
             if algo == "lane":
-                cause, line = lane_failure_cause(ctx, exe, text, tag)
+                # (only the start symbol in question stays `pub`: lalrpop stops at the first failing one)
+                single = re.sub(r"^pub (N\d+:)", r"\1", text, flags=re.M)
+                single = re.sub(r"^(%s:)" % re.escape(start), r"pub \1", single, flags=re.M)
+                cause, line = lane_failure_cause(ctx, exe, single, tag)
                 replay["lane_table_gave_up_at"] = {"cause": cause, "log_line": line}
                 fp = f"lane-table-rejects-LR1-grammar:{cause}"
                 lane_known.setdefault(cause, []).append(grammars[int(gi)])
@@ -254,4 +258,6 @@ def run(ctx):
         "export_automaton (verif hook) reports the automaton/conflicts the code generators receive; cross-checked against "
         "Configuration::process_file on every grammar",
         "classification of lane-table rejections reads lalrpop's own debug log (rows: intra-row conflict / Merge::walk: failed to union)",
+        "Nil::conflicts (LR(0) conflict detection) is not modelled: in the lane-table construction both of its outcomes hand the "
+        "same LR(0) states on; permit_early_stop (stop after max_errors conflicts) is not modelled: it cannot change a verdict",
     ]
